@@ -19,7 +19,8 @@ def chunks (k : Nat) (x : Arr) : List Arr := chunksF x.length k x
 /-- `Transform._apply_batched(x, batch_size)` for `batch_size` `None` or a positive int:
 `if batch_size is None: return self._apply(x)`; `if n_points == 0: return self._apply(x)`;
 otherwise `np.vstack([self._apply(x[lo:lo+batch_size]) for lo in range(0, n_points, batch_size)])`.
-(`batch_size <= 0` makes `range` / `np.vstack` raise ValueError — outside the documented domain, not modelled.) -/
+(TOTAL model, used for `batch_size` `None` or positive.  `batch_size <= 0` makes `range` / `np.vstack` raise ValueError:
+that branch is modelled by `applyBatchedE`, Core/C02Src.lean, which is what the translated source is proved equal to.) -/
 def applyBatched (f : Arr → Arr) (batch : Option Nat) (x : Arr) : Arr :=
   match batch with
   | none => f x
@@ -33,7 +34,9 @@ def withDims (dims : List Nat) : Arr → Arr := fun x => x.map fun row => dims.m
 
 def dotRow (r x : List Rat) : Rat := (List.zipWith (· * ·) r x).foldl (· + ·) 0
 
-/-- `Homogeneous._apply`: `h_y = [x, 1]·Hᵀ; return (h_y / h_y[:, -1])[:, :-1]` (division by 0 left as 0) -/
+/-- `Homogeneous._apply`: `h_y = [x, 1]·Hᵀ; return (h_y / h_y[:, -1])[:, :-1]` (division by 0 left as 0 where numpy gives
+nan / inf: the model is the code only for points whose homogeneous coordinate `w` is not 0 — always 1 for the affine family,
+`affine_eq_hom`) -/
 def homApply (H : Arr) : Arr → Arr := fun a =>
   a.map fun x =>
     let hx := x ++ [1]
